@@ -38,7 +38,7 @@ func (e *Engine) snapshot(st *State, v Val) Val {
 				content = StructV{Typ: stt, F: make([]Val, stt.NumFields()), Sym: x.Name}
 			}
 		}
-		return SnapPtr{Nil: x.Nil, Content: content, Cell: c}
+		return SnapPtr{Nil: x.Nil, Content: content, Cell: c, ElemT: x.Elem}
 	case OptV:
 		if x.Cell != nil {
 			return OptV{Nil: x.Nil, V: e.optSnapshot(x, st), Elem: x.Elem}
@@ -115,7 +115,11 @@ func (e *Engine) doCall(f *frame, st *State, cc *ssa.CallCommon, args []Val, fnv
 		if cc.Value != nil {
 			iface = types.TypeString(cc.Value.Type(), nil)
 		}
-		e.record(Event{Guard: reach, Recv: fnv, RecvT: recvT, Callee: cc.Method.Name(), Iface: iface, Args: snaps, Res: asList(res), Pos: pos})
+		var ats []types.Type
+		for _, a := range cc.Args {
+			ats = append(ats, a.Type())
+		}
+		e.record(Event{Guard: reach, Recv: fnv, RecvT: recvT, Callee: cc.Method.Name(), Iface: iface, Args: snaps, ArgTypes: ats, Res: asList(res), Pos: pos})
 		if e.pure == 0 {
 			for i, a := range args {
 				if _, isPtr := cc.Args[i].Type().Underlying().(*types.Pointer); isPtr && !e.ctx.ifaceKeepsArgs(iface, cc.Method.Name()) {
@@ -279,22 +283,41 @@ func (e *Engine) callFunc(f *frame, st *State, callee *ssa.Function, bind []Val,
 	}
 	display := fnDisplayName(callee)
 	// contract of the callee (modular reasoning)
-	if fc := e.ctx.contractOf(callee); fc != nil && callee != e.top && e.pure == 0 && !e.cfg.Inline[display] && !e.cfg.Inline[name] {
+	// (closures are executed in the context of their parent; their own contract is checked when they are verified standalone)
+	if fc := e.ctx.contractOf(callee); fc != nil && callee != e.top && callee.Parent() == nil && e.pure == 0 && !e.cfg.Inline[display] && !e.cfg.Inline[name] {
 		return e.callContract(f, st, callee, fc, args, sig, reach, pos)
 	}
-	inlineOK := callee.Blocks != nil && e.inlineDepth < 5 && !e.cfg.Havoc[display] && !e.cfg.Havoc[name] && !e.ctx.neverInline(callee)
+	inlineOK := callee.Blocks != nil && e.inlineDepth < 5 && !e.cfg.Havoc[display] && !e.cfg.Havoc[name] && !e.ctx.neverInline(callee) && !e.noInline[staticFullName(callee)]
 	if inlineOK {
 		isClosure := callee.Parent() != nil
-		small := inRepo && len(callee.Blocks) <= 14 && (!hasLoops(callee) || e.cfg.Effects)
+		samePkg := callee.Pkg != nil && callee.Pkg == e.top.Package()
+		takesFunc := false
+		for _, a := range args {
+			if _, ok := a.(FuncV); ok {
+				takesFunc = true
+			}
+		}
+		limit := 8
+		if samePkg || takesFunc {
+			limit = 14
+		}
+		small := inRepo && len(callee.Blocks) <= limit && (!hasLoops(callee) || e.cfg.Effects && samePkg)
 		forced := e.cfg.Inline[display] || e.cfg.Inline[name]
 		generic := inRepo && callee.Pkg == nil // instantiated generic helper (ptrutils.ToPtr, sliceutils.Map ...)
 		if forced || e.pure > 0 && inRepo || isClosure && inRepo && (!hasLoops(callee) || e.cfg.Effects) || small || generic && !hasLoops(callee) {
 			if hasLoops(callee) && !e.cfg.Effects {
 				panic(unsupported{"cannot inline " + display + ": it has loops"})
 			}
+			ownContract := isClosure && e.ctx.contractOf(callee) != nil && callee != e.top
+			if ownContract {
+				e.quiet++
+			}
 			e.inlineDepth++
 			rs, nst, nreach := e.execFunc(callee, args, bind, st, reach, false)
 			e.inlineDepth--
+			if ownContract {
+				e.quiet--
+			}
 			return pack(rs), nst, nreach
 		}
 	}
@@ -304,13 +327,16 @@ func (e *Engine) callFunc(f *frame, st *State, callee *ssa.Function, bind []Val,
 	for _, a := range args {
 		snaps = append(snaps, e.snapshot(st, a))
 	}
-	e.record(Event{Guard: reach, Callee: callee.String(), Static: callee, Args: snaps, Res: asList(res), Pos: pos})
+	e.record(Event{Guard: reach, Callee: callee.String(), Static: callee, Args: snaps, ArgTypes: paramTypesOf(callee), Res: asList(res), Pos: pos})
 	if e.pure == 0 {
 		e.havocked[callee.String()] = true
 		keeps := memorySafePkgs[pkgPath] || strings.HasPrefix(pkgPath, "go.opentelemetry.io/") || strings.HasPrefix(pkgPath, "log/")
 		if !keeps {
 			for _, a := range args {
 				e.havocPointee(st, a, name)
+				if fv, ok := a.(FuncV); ok {
+					e.havocClosureWrites(st, fv)
+				}
 			}
 			for _, b := range bind {
 				e.havocPointee(st, b, name)
@@ -326,8 +352,7 @@ func (e *Engine) callContract(f *frame, st *State, callee *ssa.Function, fc *Fun
 	if cpkg == nil {
 		panic(unsupported{"contract on generic instance " + callee.String()})
 	}
-	if pre := cpkg.Func(fc.preFunc()); pre != nil {
-		goal := e.pureCallIn(cpkg, pre, args, nil, st)[0].(BoolV).T
+	if goal, ok := e.evalPre(cpkg, fc, callee, args, nil, st); ok {
 		e.oblige("requires", fnDisplayName(callee), reach, goal, pos)
 	}
 	entry := st.clone()
@@ -345,7 +370,7 @@ func (e *Engine) callContract(f *frame, st *State, callee *ssa.Function, fc *Fun
 	for _, a := range args {
 		snaps = append(snaps, e.snapshot(entry, a))
 	}
-	e.record(Event{Guard: reach, Callee: callee.String(), Static: callee, Args: snaps, Res: rs, Pos: pos})
+	e.record(Event{Guard: reach, Callee: callee.String(), Static: callee, Args: snaps, ArgTypes: paramTypesOf(callee), Res: rs, Pos: pos})
 	if fc.Trusted {
 		e.trustedUsed["contract:"+callee.String()] = true
 	}
@@ -683,4 +708,12 @@ func (e *Engine) yieldLoop(f *frame, st *State, yv FuncV, reach string, pos toke
 	e.fact(imp(and(reach, not(ex)), and(r, not(cont))))
 	merged := e.mergeStates([]guarded{{g: ex, s: head}, {g: "true", s: out}})
 	return merged, reach
+}
+
+func paramTypesOf(fn *ssa.Function) []types.Type {
+	var out []types.Type
+	for _, p := range fn.Params {
+		out = append(out, p.Type())
+	}
+	return out
 }
